@@ -152,6 +152,52 @@ pub fn generate(rng: &mut Rng, tier: Tier, emit: &mut dyn FnMut(String)) {
         emit(format!("e2e spec n=3 sh=0 idem={} max=2 iv=25 slow=0 kind=query api=unpaged vals=1 seed={}", idem, seed + 320 + idem));
         emit(format!("e2e spec n=3 sh=0 idem={} max=2 iv=25 slow=1 kind=query vals=1 seed={}", idem, seed + 330 + idem));
     }
+    // a statement that was NEVER marked idempotent but has other things configured on it (tracing, timestamp,
+    // consistencies, timeout, listener): still exactly one request, through every entry point; and the config copied by
+    // Session::prepare (src=1)
+    {
+        let mut k = 0u64;
+        let pres = ["tr1", "ts+cons+ser+to+hl", "tr0+tr1", "tr1+ts+hl"];
+        let shapes: [(&str, &str, u64, &str); 11] = [
+            ("iter", "query", 1, ""),
+            ("iter", "exec", 1, ""),
+            ("iter", "exec", 2, " src=1"),
+            ("iter", "query", 1, " via=caching"),
+            ("unpaged", "query", 0, ""),
+            ("unpaged", "exec", 0, ""),
+            ("unpaged", "exec", 0, " src=1"),
+            ("unpaged", "query", 0, " via=caching"),
+            ("unpaged", "query", 0, " vals=1"),
+            ("batch", "query", 0, ""),
+            ("single", "exec", 0, " src=1"),
+        ];
+        for (pi, pre) in pres.iter().enumerate() {
+            for (si, (api, kind, slow, extra)) in shapes.iter().enumerate() {
+                // quick: every shape with tracing, the other call lists on a rotating third of the shapes
+                if tier == Tier::Quick && pi != 0 && (si + pi) % 3 != 0 {
+                    continue;
+                }
+                emit(format!("e2e spec n=3 sh=0 idem=0 max=2 iv=25 slow={} kind={} api={} pre={}{} seed={}", slow, kind, api, pre, extra, seed + 400 + k));
+                k += 1;
+            }
+        }
+        // marked idempotent with the same calls on top: the executions the policy allows are still bounded and distinct
+        emit(format!("e2e spec n=3 sh=0 idem=1 max=2 iv=25 slow=1 kind=query pre=tr0+ts seed={}", seed + 460));
+        emit(format!("e2e spec n=3 sh=0 idem=1 max=2 iv=25 slow=0 kind=exec api=unpaged pre=tr1 src=1 seed={}", seed + 461));
+    }
+    // the REVERSE profile direction (the statement's profile has no policy, the session default has one), the single-page
+    // entry points, and a session default derived through to_builder()
+    for (api, kind, slow, extra) in [("iter", "exec", 1u64, ""), ("iter", "query", 2, ""), ("unpaged", "query", 0, ""), ("unpaged", "exec", 0, ""), ("batch", "query", 0, ""), ("single", "query", 0, ""), ("iter", "query", 1, " via=caching")] {
+        emit(format!("e2e spec n=4 sh=0 idem=1 max=1 iv=25 slow={} kind={} api={} prof=nostmt:3{} seed={}", slow, kind, api, extra, seed + 500));
+    }
+    for idem in [0u64, 1] {
+        for (kind, extra) in [("query", ""), ("exec", ""), ("query", " via=caching"), ("query", " vals=1")] {
+            emit(format!("e2e spec n=3 sh=0 idem={} max=2 iv=25 slow=0 kind={} api=single{} seed={}", idem, kind, extra, seed + 510 + idem));
+        }
+    }
+    emit(format!("e2e spec n=4 sh=0 idem=1 max=3 iv=25 slow=1 kind=exec prof=derived seed={}", seed + 520));
+    emit(format!("e2e spec n=4 sh=0 idem=1 max=3 iv=25 slow=0 kind=query api=unpaged prof=derived seed={}", seed + 521));
+    emit(format!("e2e spec n=4 sh=0 idem=0 max=3 iv=25 slow=0 kind=query api=single prof=derived seed={}", seed + 522));
     if tier == Tier::Thorough {
         for _ in 0..20 {
             let n = 1 + rng.below(3);
@@ -207,7 +253,8 @@ fn run_mode(words: &[&str], ctx: &mut Ctx, detail: bool) -> String {
     // api: `iter` (paged stream, default), `unpaged` (query_unpaged / execute_unpaged by `kind`), `batch` (a BATCH whose
     // statements carry the OPPOSITE idempotence flag: only `batch.set_is_idempotent` counts)
     let api = p.str("api").unwrap_or("iter");
-    if !["iter", "unpaged", "batch"].contains(&api) || (api != "iter" && slow != 0) {
+    // `single`: ONE page through query_single_page / execute_single_page / CachingSession::execute_single_page
+    if !["iter", "unpaged", "batch", "single"].contains(&api) || (api != "iter" && slow != 0) {
         return "bad-case".into();
     }
     // member flags of a batch (`bm=010`: one char per member statement; default: two members with the OPPOSITE flag)
@@ -225,13 +272,48 @@ fn run_mode(words: &[&str], ctx: &mut Ctx, detail: bool) -> String {
     if !["session", "caching"].contains(&via) || vals > 1 || (vals == 1 && kind != "query") {
         return "bad-case".into();
     }
+    // `pre=<tok+tok..>`: OTHER setters called on the statement object (the Statement, the PreparedStatement or the Batch
+    // that is submitted) after its idempotence was set: tr1 tr0 (set_tracing) ts (set_timestamp) cons ser to
+    // (set_request_timeout) hl (set_history_listener) - none of them may mark the request idempotent;
+    // `src=1` (kind=exec): the calls, set_is_idempotent included, are made on the Statement that is then PREPARED
+    // (Session::prepare copies the statement's config into the prepared statement), which is executed untouched
+    let pre: Vec<&str> = match p.str("pre") {
+        None => Vec::new(),
+        Some(x) => x.split('+').collect(),
+    };
+    if !pre.iter().all(|t| ["tr1", "tr0", "ts", "cons", "ser", "to", "hl"].contains(t)) || pre.len() > 8 {
+        return "bad-case".into();
+    }
+    let Some(src) = p.num_or("src", 0) else { return "bad-case".into() };
+    if src > 1 || (src == 1 && (kind != "exec" || api == "batch" || via != "session")) {
+        return "bad-case".into();
+    }
+    macro_rules! apply_pre {
+        ($o:expr) => {
+            for t in pre.iter() {
+                match *t {
+                    "tr1" => $o.set_tracing(true),
+                    "tr0" => $o.set_tracing(false),
+                    "ts" => $o.set_timestamp(Some(1_700_000_000_000_000)),
+                    "cons" => $o.set_consistency(scylla::statement::Consistency::One),
+                    "ser" => $o.set_serial_consistency(Some(scylla::statement::SerialConsistency::LocalSerial)),
+                    "to" => $o.set_request_timeout(Some(Duration::from_secs(25))),
+                    _ => $o.set_history_listener(Arc::new(scylla::observability::history::HistoryCollector::new())),
+                }
+            }
+        };
+    }
     // where the speculative policy (max, iv) lives: `default` = the session's default profile; `stmt:<dmax|->` = on the
     // STATEMENT's profile handle while the session default carries another policy (max = dmax) or none; `remap:<dmax|->` =
-    // the statement's handle first points to a policy-less profile and is then re-mapped (`map_to_another_profile`)
+    // the statement's handle first points to a policy-less profile and is then re-mapped (`map_to_another_profile`);
+    // `nostmt:<dmax>` = the REVERSE: the statement's profile has NO policy while the session default has one (max = dmax):
+    // the chosen profile's `None` must not fall back to the session default - exactly one request; `derived` = the
+    // session default is `profile.to_builder().build()` of the profile that carries the policy
     let prof = p.str("prof").unwrap_or("default");
     let (prof_kind, dmax): (&str, Option<u64>) = match prof.split_once(':') {
         None if prof == "default" => ("default", None),
-        Some((k, d)) if k == "stmt" || k == "remap" => match d {
+        None if prof == "derived" => ("derived", None),
+        Some((k, d)) if k == "stmt" || k == "remap" || k == "nostmt" => match d {
             "-" => (k, None),
             x => match x.parse::<u64>() {
                 Ok(v) if v <= 8 => (k, Some(v)),
@@ -285,7 +367,12 @@ fn run_mode(words: &[&str], ctx: &mut Ctx, detail: bool) -> String {
         return "bad-case".into();
     }
     let n = n as usize;
-    let hold = Duration::from_millis((max + 2) * iv + 150);
+    if prof_kind == "nostmt" && dmax.is_none() {
+        return "bad-case".into();
+    }
+    let hold = Duration::from_millis((max.max(dmax.unwrap_or(0)) + 2) * iv + 150);
+    // `nostmt`: the policy in force is the statement profile's: none
+    let max = if prof_kind == "nostmt" { 0 } else { max };
     let mut rng = Rng::new(seed ^ 0x7370_6563);
     // three pages of two rows; paging states P0, P1
     let pages: Vec<Vec<i32>> = vec![vec![0, 1], vec![2, 3], vec![4, 5]];
@@ -358,6 +445,8 @@ fn run_mode(words: &[&str], ctx: &mut Ctx, detail: bool) -> String {
         let policy_profile = with_policy(Some(max));
         let (default_handle, stmt_handle) = match prof_kind {
             "default" => (policy_profile.into_handle(), None),
+            "derived" => (policy_profile.to_builder().build().into_handle(), None),
+            "nostmt" => (with_policy(dmax).into_handle(), Some(with_policy(None).into_handle())),
             "stmt" => (with_policy(dmax).into_handle(), Some(policy_profile.into_handle())),
             _ => {
                 let mut h = with_policy(None).into_handle();
@@ -396,6 +485,7 @@ fn run_mode(words: &[&str], ctx: &mut Ctx, detail: bool) -> String {
                     values.push((vec![i as u8], i as i32));
                 }
                 batch.set_is_idempotent(idem != 0);
+                apply_pre!(batch);
                 batch.set_execution_profile_handle(stmt_handle.clone());
                 if use_caching {
                     caching.batch(&batch, values).await.map(|_| ()).map_err(|e| e.to_string())
@@ -405,30 +495,51 @@ fn run_mode(words: &[&str], ctx: &mut Ctx, detail: bool) -> String {
             } else if use_caching {
                 let mut st = Statement::new(SELECT_ALL);
                 st.set_is_idempotent(idem != 0);
+                apply_pre!(st);
                 st.set_execution_profile_handle(stmt_handle.clone());
-                caching.execute_unpaged(st, ()).await.map(|_| ()).map_err(|e| e.to_string())
+                if api == "single" {
+                    caching.execute_single_page(st, (), scylla::response::PagingState::start()).await.map(|_| ()).map_err(|e| e.to_string())
+                } else {
+                    caching.execute_unpaged(st, ()).await.map(|_| ()).map_err(|e| e.to_string())
+                }
             } else if kind == "query" {
                 let mut st = Statement::new(if vals == 1 { SELECT } else { SELECT_ALL });
                 st.set_is_idempotent(idem != 0);
+                apply_pre!(st);
                 st.set_execution_profile_handle(stmt_handle.clone());
-                if vals == 1 {
-                    session.query_unpaged(st, (vec![7u8],)).await.map(|_| ()).map_err(|e| e.to_string())
-                } else {
-                    session.query_unpaged(st, ()).await.map(|_| ()).map_err(|e| e.to_string())
+                let start = scylla::response::PagingState::start;
+                match (vals == 1, api == "single") {
+                    (true, false) => session.query_unpaged(st, (vec![7u8],)).await.map(|_| ()).map_err(|e| e.to_string()),
+                    (false, false) => session.query_unpaged(st, ()).await.map(|_| ()).map_err(|e| e.to_string()),
+                    (true, true) => session.query_single_page(st, (vec![7u8],), start()).await.map(|_| ()).map_err(|e| e.to_string()),
+                    (false, true) => session.query_single_page(st, (), start()).await.map(|_| ()).map_err(|e| e.to_string()),
                 }
             } else {
-                match session.prepare(SELECT_ALL).await {
+                let mut source = Statement::new(SELECT_ALL);
+                if src == 1 {
+                    source.set_is_idempotent(idem != 0);
+                    apply_pre!(source);
+                    source.set_execution_profile_handle(stmt_handle.clone());
+                }
+                match session.prepare(source).await {
                     Err(_) => return "e2e-skip prepare-failed".to_owned(),
                     Ok(mut ps) => {
-                        ps.set_is_idempotent(idem != 0);
-                        ps.set_execution_profile_handle(stmt_handle.clone());
-                        session.execute_unpaged(&ps, ()).await.map(|_| ()).map_err(|e| e.to_string())
+                        if src == 0 {
+                            ps.set_is_idempotent(idem != 0);
+                            apply_pre!(ps);
+                            ps.set_execution_profile_handle(stmt_handle.clone());
+                        }
+                        if api == "single" {
+                            session.execute_single_page(&ps, (), scylla::response::PagingState::start()).await.map(|_| ()).map_err(|e| e.to_string())
+                        } else {
+                            session.execute_unpaged(&ps, ()).await.map(|_| ()).map_err(|e| e.to_string())
+                        }
                     }
                 }
             };
             tokio::time::sleep(Duration::from_millis(20)).await;
             let seen = seen.lock().unwrap().clone();
-            let what = format!("n={} sh={} idem={} max={} api={} kind={} via={} bm={:?} prof={} lb={} seen(page,node,shard)={:?}", n, sh, idem, max, api, kind, via, bm, prof, lb, seen.iter().map(|s| (s.0, s.1, s.2)).collect::<Vec<_>>());
+            let what = format!("n={} sh={} idem={} max={} api={} kind={} via={} bm={:?} prof={} lb={} pre={:?} src={} seen(page,node,shard)={:?}", n, sh, idem, max, api, kind, via, bm, prof, lb, pre, src, seen.iter().map(|s| (s.0, s.1, s.2)).collect::<Vec<_>>());
             if let Err(e) = res {
                 ctx.fail(format!("e2e spec: the unpaged request failed ({}); {}", e.replace(['\n', '\t'], " "), what));
             }
@@ -453,23 +564,35 @@ fn run_mode(words: &[&str], ctx: &mut Ctx, detail: bool) -> String {
         let pager = if use_caching {
             let mut st = Statement::new(SELECT_ALL);
             st.set_is_idempotent(idem != 0);
+            apply_pre!(st);
             st.set_page_size(2);
             st.set_execution_profile_handle(stmt_handle.clone());
             caching.execute_iter(st, ()).await
         } else if kind == "query" {
             let mut st = Statement::new(if vals == 1 { SELECT } else { SELECT_ALL });
             st.set_is_idempotent(idem != 0);
+            apply_pre!(st);
             st.set_page_size(2);
             st.set_execution_profile_handle(stmt_handle.clone());
             if vals == 1 { session.query_iter(st, (vec![7u8],)).await } else { session.query_iter(st, ()).await }
         } else {
-            let mut ps = match session.prepare(SELECT_ALL).await {
+            let mut source = Statement::new(SELECT_ALL);
+            if src == 1 {
+                source.set_is_idempotent(idem != 0);
+                apply_pre!(source);
+                source.set_page_size(2);
+                source.set_execution_profile_handle(stmt_handle.clone());
+            }
+            let mut ps = match session.prepare(source).await {
                 Ok(ps) => ps,
                 Err(_) => return "e2e-skip prepare-failed".to_owned(),
             };
-            ps.set_is_idempotent(idem != 0);
-            ps.set_page_size(2);
-            ps.set_execution_profile_handle(stmt_handle.clone());
+            if src == 0 {
+                ps.set_is_idempotent(idem != 0);
+                apply_pre!(ps);
+                ps.set_page_size(2);
+                ps.set_execution_profile_handle(stmt_handle.clone());
+            }
             session.execute_iter(ps, ()).await
         };
         let mut got: Vec<i32> = Vec::new();
@@ -501,7 +624,7 @@ fn run_mode(words: &[&str], ctx: &mut Ctx, detail: bool) -> String {
         tokio::time::sleep(Duration::from_millis(20)).await;
         // ------------------------------------------------------------------ oracle
         let seen = seen.lock().unwrap().clone();
-        let what = format!("n={} sh={} idem={} max={} slow={} kind={} via={} prof={} lb={} seen(page,node,shard)={:?}", n, sh, idem, max, slow, kind, via, prof, lb, seen.iter().map(|s| (s.0, s.1, s.2)).collect::<Vec<_>>());
+        let what = format!("n={} sh={} idem={} max={} slow={} kind={} via={} prof={} lb={} pre={:?} src={} seen(page,node,shard)={:?}", n, sh, idem, max, slow, kind, via, prof, lb, pre, src, seen.iter().map(|s| (s.0, s.1, s.2)).collect::<Vec<_>>());
         if failed || got != vec![0, 1, 2, 3, 4, 5] {
             ctx.fail(format!("e2e spec: the stream {} with rows {:?}; {}", if failed { "failed" } else { "ended" }, got, what));
         }
